@@ -446,7 +446,8 @@ def afterObs (st : SrvSt) (elec : Option U128) (master : Option Nat) (sess : Lis
   let st := match st.justConnected with
     | some n =>
       match sess.find? (fun (o : ObsSess) => o.c == n) with
-      | some o => if o.setParams || o.last.isSome then st.monfail "c09" s!"session {n} has just connected but already has negotiated parameters or an election id" else st
+      | some o => if o.setParams || o.last.isSome || o.params.persist || o.params.expectElec || o.params.fibAck
+          then st.monfail "c09" s!"session {n} has just connected but already carries negotiated parameters or an election id (taken from another session)" else st
       | none => st
     | none => st
   let st := { st with implElec := elec, implMaster := master, implSess := sess, expectUnchanged := none, flushedNIs := none, lastOps := none, justConnected := none }
